@@ -18,6 +18,7 @@ are exercised by the correspondence runs (in-memory and HTTP in the quick tier).
 -/
 import FV.Model.Rpc
 import FV.Proofs.Thrift
+import FV.Proofs.Rpc
 
 namespace FV.C03
 open FV FV.Thrift FV.Rpc
@@ -107,6 +108,54 @@ theorem c03_faithful_undeclared (d : Defs) (n : Nat) (key : String) (args : Val)
   · intro hh; unfold call; simp only [hes, hrt, hh, Bool.false_eq_true, if_false]
   · intro ty hh; unfold call; simp only [hes, hrt, hh, Bool.false_eq_true, if_false]
 
+/-! ### Whatever the request waited at the server, whatever timeout the caller's FContext carried
+
+`FV.Rpc.callQ` adds the two times to the call path. The server side of the model does not look at either
+(no transport sheds a request it received), so: -/
+
+/-- A oneway call that succeeded for its caller (nil error: observed `void`) has had its handler invoked
+exactly once with equal arguments — for EVERY queue wait and EVERY FContext timeout, in particular when the
+request waited at a busy server for longer than the call's own timeout (which only bounds the send). -/
+theorem c03_oneway_success_implies_handled_whatever_wait (d : Defs) (n : Nat) (key : String) (args : Val)
+    (h : Val → HOutcome) (wait timeout : Nat) (hargs : WT d n (.struct (key ++ "_args")) args)
+    (_hsucc : (callQ d n key true args h wait timeout).result = .void) :
+    (callQ d n key true args h wait timeout).calls = 1 ∧
+    (callQ d n key true args h wait timeout).args = some args := by
+  rw [callQ_ow]
+  exact c03_handler_once_equal_args d n key true args h hargs
+
+/-- …and a oneway call with well-typed arguments does succeed, whatever the two times. -/
+theorem c03_oneway_succeeds_whatever_wait (d : Defs) (n : Nat) (key : String) (args : Val)
+    (h : Val → HOutcome) (wait timeout : Nat) (hargs : WT d n (.struct (key ++ "_args")) args) :
+    (callQ d n key true args h wait timeout).result = .void := by
+  rw [callQ_ow]
+  exact c03_oneway_no_reply d n key args h hargs
+
+/-- A two-way call is handled exactly once with equal arguments whether or not its caller was still waiting:
+the caller observes the outcome of `call` when the reply came in time, TIMED_OUT otherwise. -/
+theorem c03_twoway_handled_once_whatever_wait (d : Defs) (n : Nat) (key : String) (args : Val)
+    (h : Val → HOutcome) (wait timeout : Nat) (hargs : WT d n (.struct (key ++ "_args")) args) :
+    (callQ d n key false args h wait timeout).calls = 1 ∧
+    (callQ d n key false args h wait timeout).args = some args ∧
+    (wait < timeout → (callQ d n key false args h wait timeout).result = (call d n key false args h).result) ∧
+    (timeout ≤ wait → (callQ d n key false args h wait timeout).result = .timedOut) := by
+  have hc := c03_handler_once_equal_args d n key false args h hargs
+  have hq := callQ_calls d n key false args h wait timeout
+  obtain ⟨es, hes⟩ := enc_total d n _ args hargs
+  have hsent : sent d n key args = true := by simp [sent, hes]
+  refine ⟨hq.1.trans hc.1, hq.2.trans hc.2, ?_, ?_⟩
+  · intro hw; rw [callQ_res_in d n key args h wait timeout hw]
+  · intro hw; exact callQ_res_out d n key args h wait timeout hw hsent
+
+/-- Never twice, and never with arguments other than `call`'s — for ANY argument value (well typed or not),
+any wait, any timeout, oneway or not. -/
+theorem c03_at_most_once_whatever_wait (d : Defs) (n : Nat) (key : String) (oneway : Bool) (args : Val)
+    (h : Val → HOutcome) (wait timeout : Nat) :
+    (callQ d n key oneway args h wait timeout).calls ≤ 1 ∧
+    (callQ d n key oneway args h wait timeout).args = (call d n key oneway args h).args := by
+  have hq := callQ_calls d n key oneway args h wait timeout
+  exact ⟨hq.1 ▸ call_le d n key oneway args h, hq.2⟩
+
 /-- Inherited methods behave identically: through the child's processor a method the child does not
 redefine dispatches to the very same processor function (same args/result structs, same handler
 method) as through the parent's own processor — so all the theorems above apply to it unchanged. -/
@@ -128,5 +177,19 @@ theorem c03_inherited_same (svcs : List Service) (fuel : Nat) (child : Service) 
 /-! Non-vacuity: a child with one own method extending a parent with two. -/
 example : dispatch (procMap [⟨"f/Base", none, ["ping", "get"]⟩, ⟨"f/Svc", some "f/Base", ["put"]⟩] 3 "f/Svc") "get"
     = some "f/Base_get" := by decide
+
+/-! Non-vacuity of the time dimension: a oneway `ping()` whose request waited 400 ms with a 100 ms timeout is
+handled once; the two-way `ping()` is handled too and its caller observes TIMED_OUT. -/
+def exDefsQ : Defs := ⟨[], [], [⟨.struct, "f/S_ping_args", "ping_args", []⟩, ⟨.struct, "f/S_ping_result", "ping_result", []⟩]⟩
+
+example : WT exDefsQ 4 (.struct "f/S_ping_args") (.struct []) := by
+  simp [WT, exDefsQ, resolve, resolveN, lookupStruct, normFields, lookupVal]
+
+example : (callQ exDefsQ 4 "f/S_ping" true (.struct []) (fun _ => .value none) 400 100).calls = 1 := by decide +kernel
+example : (callQ exDefsQ 4 "f/S_ping" false (.struct []) (fun _ => .value none) 400 100).calls = 1 := by decide +kernel
+example : (callQ exDefsQ 4 "f/S_ping" false (.struct []) (fun _ => .value none) 400 100).result matches .timedOut := by
+  decide +kernel
+example : (callQ exDefsQ 4 "f/S_ping" false (.struct []) (fun _ => .value none) 40 100).result matches .void := by
+  decide +kernel
 
 end FV.C03
